@@ -57,6 +57,12 @@ Anon ==
   /\ anons' = anons \cup {E.p}
   /\ dirty' = TRUE
   /\ UNCHANGED <<tid, cf, hints, body, bound, claims, last>>
+\* File.CgoPreamble called in the middle of a history
+PreambleEv ==
+  /\ IsEv("Preamble")
+  /\ cf' = [cf EXCEPT !.preamble = Append(@, E.node), !.predoc = E.predoc]
+  /\ dirty' = TRUE
+  /\ UNCHANGED <<tid, hints, imps, body, bound, claims, anons, last>>
 Add ==
   /\ IsEv("Add")
   /\ body' = Append(body, E.tree)
@@ -200,7 +206,7 @@ FragEv ==
   /\ dirty' = TRUE
   /\ UNCHANGED <<tid, cf, hints, body, claims, anons, last>>
 
-Next == New \/ ImportName \/ ImportAlias \/ Anon \/ Add \/ RenderEv \/ FragEv
+Next == New \/ ImportName \/ ImportAlias \/ Anon \/ PreambleEv \/ Add \/ RenderEv \/ FragEv
 Spec == Init /\ [][Next]_vars
 Accepted == TLCGet("stats").diameter - 1 = Len(Trace)
 =============================================================================
